@@ -116,6 +116,59 @@ def build_schedule(s, rnd=None):
     return res
 
 
+def variant_schedule(written, objs, rnd):
+    """A schedule for ANOTHER challenge of the same track, assembled from the same snippets: every task has the same name and the
+    same settings as its namesake in `written` / `objs` (clients, iterations, time periods, params, meta data, completed-by, even
+    the operation's name: track.Task.__eq__ / Operation.__eq__ hold between the namesakes) but about half of the tasks are TAGGED
+    differently or are (inline) operations of another operation type. Returns (written variant, real objects)."""
+    from esrally.track import track
+
+    pairs = []
+    for lf in leaves(written):
+        if (lf["type"], lf["tags"]) not in pairs:
+            pairs.append((lf["type"], lf["tags"]))
+    for ty in sorted({p[0] for p in pairs} | {"bulk_with_retry", "bulk-with-retry"}):
+        for tg in ([], ["index"]):
+            if (ty, tg) not in pairs:
+                pairs.append((ty, tg))
+
+    def leaf(lf, o):
+        ty, tags = lf["type"], lf["tags"]
+        if rnd.random() < 0.5:
+            ty, tags = rnd.choice([p for p in pairs if p != (ty, tags)])
+        w = dict(lf, type=ty, tags=list(tags))
+        wtags = tags[0] if len(tags) == 1 and rnd.random() < 0.6 else list(tags)
+        obj = track.Task(
+            name=o.name,
+            operation=track.Operation(name=o.operation.name, operation_type=ty, params=dict(o.operation.params)),
+            tags=wtags if wtags else None,
+            meta_data=dict(o.meta_data),
+            warmup_iterations=o.warmup_iterations,
+            iterations=o.iterations,
+            warmup_time_period=o.warmup_time_period,
+            time_period=o.time_period,
+            ramp_up_time_period=o.ramp_up_time_period,
+            clients=o.clients,
+            completes_parent=o.completes_parent,
+            any_completes_parent=o.any_completes_parent,
+            schedule=o.schedule,
+            params=dict(o.params),
+        )
+        return w, obj
+
+    ws, os_ = [], []
+    for el, o in zip(written, objs):
+        if el["k"] == "par":
+            pr = [leaf(lf, x) for lf, x in zip(el["tasks"], o.tasks)]
+            ws.append({"k": "par", "cap": el["cap"], "tasks": [w for w, _ in pr]})
+            os_.append(track.Parallel([x for _, x in pr], clients=el["cap"] if el["cap"] else None))
+        else:
+            w, x = leaf(el, o)
+            ws.append(w)
+            os_.append(x)
+    return ws, os_
+
+
 # ---------------------------------------------------------------------------------------------------
 # real objects -> JSON
 # ---------------------------------------------------------------------------------------------------
@@ -379,7 +432,8 @@ def leaves(s):
 # ---------------------------------------------------------------------------------------------------
 # seeded random schedules (wider than the TLC bounds)
 # ---------------------------------------------------------------------------------------------------
-TYPES = ["bulk", "search", "force-merge", "custom-type"]
+# core types and user-defined ones; some contain an underscore, some a hyphen, one pair differs only in "_" vs "-"
+TYPES = ["bulk", "search", "force-merge", "custom-type", "bulk_with_retry", "bulk-with-retry", "my_custom_op"]
 # some tags are proper substrings of others: a tag filter must compare whole tags
 TAGS = ["index", "reindex", "post-index-stats", "search", "search-heavy", "setup"]
 
